@@ -385,9 +385,10 @@ void herd_kick(const char *where) {
       evbuffer_defer_callbacks(h.b[i], W->base); evbuffer_add_cb(h.b[i], herd_cb, (void *)(intptr_t)i); }
     h.st = ST_ALIVE; TR("new herd of %d deferred evbuffers", NHERD);
   }
-  TR("herd write x%d (%s)", NHERD, where);
-  h.kicks++;
-  for (int i = 0; i < NHERD; i++) { h.added[i]++; evbuffer_add(h.b[i], "h", 1); }
+  int rounds = 1 + (int)derived(5, 2);   // a second round re-schedules, within the same loop iteration, callbacks that the first round parked
+  TR("herd write x%d, %d round(s) (%s)", NHERD, rounds, where);
+  h.kicks += rounds;
+  for (int r = 0; r < rounds; r++) for (int i = 0; i < NHERD; i++) { h.added[i]++; evbuffer_add(h.b[i], "h", 1); }
   verif_class(W->in_loop ? "herd_written_in_loop" : "herd_written_outside_loop");
 }
 bool herd_pending() { HerdS &h = W->herd; if (h.st != ST_ALIVE) return false; for (int i = 0; i < NHERD; i++) if (h.seen[i] != h.added[i]) return true; return false; }
